@@ -188,7 +188,7 @@ def job_metrics_resampled(nr, ne):
 def jobs(tier):
     q = tier == 'quick'
     js = [job_accounting(F) for F in ((1, 2, 3) if q else (1, 2, 3, 4, 5))]
-    js += [job_tp(a, b) for a, b in ([(2, 2), (1, 2)] if q else [(2, 2), (1, 2), (2, 3), (3, 3)])]
+    js += [job_tp(a, b) for a, b in ([(2, 2), (1, 2)] if q else [(2, 2), (1, 2), (1, 3), (3, 1), (2, 3)])]
     js += [job_resample(a, b) for a, b in ([(2, 2), (3, 2), (1, 2)] if q else [(2, 2), (3, 3), (1, 2), (4, 2)])]
     js.append(job_resample_empty())
     js.append(job_metrics(2, 2, True))
@@ -197,7 +197,6 @@ def jobs(tier):
     js.append(job_metrics_resampled(2, 2))
     if not q:
         js.append(job_metrics(2, 3, False))
-        js.append(job_metrics(3, 2, False))
         js.append(job_metrics_resampled(2, 1))
         js.append(job_metrics_resampled(3, 3))
     return js
